@@ -206,6 +206,34 @@ def r_hdr_io(ctx):
                 v = v[2][0]
             ok_v = bool(parses) and v == ("proj", unmut(parses[0].d["ret"]), 1)
             obs.append(Ob("R-HDR-IO", fn, "returns the parsed header", ok_v, "returns %s" % tstr(v)[:100], rel(f["loc"])))
+    # byte-slice entry points of the header (from_bytes): either they hand the whole job to a stream reader over the slice, or every refusal of
+    # their own is justified by "fewer than 127 bytes" — a complete 127-byte header must parse
+    hb = SPEC["header"]["bytes"] if "bytes" in SPEC.get("header", {}) else 127
+    rpaths = set(f["path"] for f in rs)
+    for f in ctx.user_fns():
+        if f.get("self_ty") != HDR or f["vis"] != "pub" or f["path"] in rpaths or "Result<" not in f["ret"] or HDR not in f["ret"]:
+            continue
+        if not f["params"] or "u8" not in (f["params"][0].get("ty") or ""):
+            continue
+        fa = ctx.fa(f)
+        for p in fa.paths:
+            if p.exit != "err" or (isinstance(p.value, tuple) and p.value and p.value[0] == "errprop"):
+                continue
+
+            def short(fct):
+                if fct[0] != "rel" or fct[1] not in ("<", "<=", ">", ">="):
+                    return False
+                op, l, r = fct[1], unmut(fct[2]), unmut(fct[3])
+                if r[0] != "c":
+                    op, l, r = {"<": ">", "<=": ">=", ">": "<", ">=": "<="}[op], r, l
+                if r[0] != "c" or not any(is_call_to(t, lambda s_: s_ == "len" or s_.endswith("::len")) for t in subterms(l)):
+                    return False
+                return (op == "<" and r[1] <= hb) or (op == "<=" and r[1] < hb)
+            d = rejects_because(p, None, short)
+            ex = [e for e in p.events if e.kind == "exit"]
+            obs.append(Ob("R-HDR-IO", f["path"], "a byte slice is refused only for being shorter than 127 bytes", d is not None,
+                          "refusal justified by its length test" if d is not None else "an error exit that `len < 127` does not account for (a complete 127-byte header must parse)",
+                          ex[-1].loc() if ex else rel(f["loc"])))
     for f in ws:
         fn = f["path"]
         fa = ctx.fa(f)
